@@ -268,6 +268,7 @@ var (
 	acctAlphabet  = []string{"w1", "w2", "w3"}
 	kindAlphabet  = []string{"", "geth", "parity"}
 	amountChoices = []string{"0", "1", "-1", "7", "1000", "-1000", "18446744073709551617", "-18446744073709551617",
+		"18446744073709551616", "-18446744073709551616", "36893488147419103232", "4294967296", "-4294967296", "9223372036854775808",
 		"1000000000000000000000000000000", "-3"}
 	advanceChoices = []int64{1e9, 30e9, 59e9, 61e9, 119e9, 121e9, 240e9}
 	ageChoices     = []int64{0, 0, 0, 30e9, 118e9, 122e9, 500e9}
